@@ -25,6 +25,8 @@ pub struct GenProfile {
     pub entangle_pct: u32,
     /// chance per 10000 operations of a 1.1 s pause
     pub pause_per_10k: u32,
+    /// chance per 1000 operations that a client's stored snapshot ages / is post-dated by days
+    pub shift_per_1k: u32,
 }
 
 impl Default for GenProfile {
@@ -42,6 +44,7 @@ impl Default for GenProfile {
             snapshot_bursts: true,
             entangle_pct: 0,
             pause_per_10k: 0,
+            shift_per_1k: 10,
         }
     }
 }
@@ -116,6 +119,10 @@ pub fn generate(seed: u64, prof: &GenProfile) -> History {
                 IdRef::Fresh(fresh_n - 1)
             }
         };
+        if prof.shift_per_1k > 0 && rng.below(1000) < prof.shift_per_1k as u64 {
+            ops.push(Op { client: c, kind: OpKind::ShiftSnapshotTime { days_older: *rng.pick(&[1i64, 13, 14, 15, 21, 22, 100, 400, 5000, -1, -2, -30]) } });
+            continue;
+        }
         if prof.pause_per_10k > 0 && rng.below(10_000) < prof.pause_per_10k as u64 {
             ops.push(Op { client: c, kind: OpKind::Pause });
             continue;
